@@ -58,7 +58,9 @@ Definition is_dir (f : fs) (n : name) : bool :=
 
 (* ---- the oracle ------------------------------------------------------------------------- *)
 Inductive outcome := Fail | Out (c : content).
-Inductive err := EPath | ERefuse | EInvalid | ERender | ERead | EClash.
+Inductive err := EPath | ERefuse | EInvalid | ERender | ERead | EClash
+               | ENotImpl   (* NotImplementedError: multifile=True with an fsspec target *)
+               | EOpen.     (* the OS refuses open(…, "w"): a directory in the way, no such directory *)
 
 Inductive source :=
 | SrcDump (o : outcome)            (* val_str = dump_using_format(...): a counted serialiser call *)
@@ -249,6 +251,62 @@ Definition no_alias (i : input) : input :=
      i_subs := i_subs i; i_mainr := i_mainr i; i_failcall := i_failcall i |}.
 
 Definition is_some {A} (o : option A) : bool := match o with Some _ => true | None => false end.
+
+(* ================================================================================================
+   THE FSSPEC BRANCH of save (round 6).  How the target is resolved is part of the call:
+     TLocal   Path(path, mode="fc") — everything above (any spelling of a local path);
+     TFsspec  the target is an fsspec URL that names the file ("local://<dir>/<name>"): Path(path, mode="sw").is_fsspec
+              holds and save never reaches Path(path, "fc") / check_overwrite.
+
+   save_fsspec  is the model of the CURRENT code:
+       path_sw = Path(path, mode="sw")     -- for an fsspec path the "w" is CHECKED BY OPENING the file for writing
+                                              (fsspec.open(abs, "w"); handle.open(); handle.close()): the file is created
+                                              or EMPTIED.  A directory in the way: IsADirectoryError propagates.
+                                              (The target's directory is assumed to exist: fsspec.open creates missing
+                                              directories itself, which the flat directory of this model cannot show;
+                                              i_dir_ok is not consulted in this branch.)
+       if multifile: raise NotImplementedError
+       with fsspec.open(path, "w") as f:   -- opened (emptied) first, no check_overwrite at all
+           f.write(self.dump(cfg, ...))    -- validate + serialise while the file is already empty
+   save_fsspec_fixed  is the same branch after fixes/C18-fsspec-target.patch (classify the path with mode "s" only,
+   NotImplementedError before anything is touched, check_overwrite, dump, and only then open + write). *)
+Inductive tkind := TLocal | TFsspec.
+
+Definition fsspec_body (i : input) : list step :=
+  let m := i_main i in
+  if i_multifile i then [] else [SOpenW m; SValidate; SDumpCall (i_full i); SWrite m].
+
+Definition save_fsspec (i : input) : fs * option err :=
+  let m := i_main i in
+  if is_dir (i_fs i) m then (i_fs i, Some EOpen)
+  else
+    let r := exec i (SOpenW m :: fsspec_body i) (init i) in
+    (st_fs (fst r), if i_multifile i then Some ENotImpl else snd r).
+
+Definition fsspec_checks (i : input) : list step :=
+  [SCheckOverwrite (i_main i); SValidate; SDumpCall (i_full i)].
+
+Definition save_fsspec_fixed (i : input) : fs * option err :=
+  let m := i_main i in
+  if i_multifile i then (i_fs i, Some ENotImpl)
+  else
+    let r := exec i (fsspec_checks i) (init i) in
+    match snd r with
+    | Some e => (st_fs (fst r), Some e)
+    | None => if is_dir (i_fs i) m then (st_fs (fst r), Some EOpen)
+              else (st_fs (fst (exec i [SOpenW m; SWrite m] (fst r))), None)
+    end.
+
+(* the implementation as a whole, on the current tree and after the patch *)
+Definition save_impl (k : tkind) (i : input) : fs * option err :=
+  match k with TLocal => save_fixed i | TFsspec => save_fsspec i end.
+
+Definition save_impl_fixed (k : tkind) (i : input) : fs * option err :=
+  match k with TLocal => save_fixed i | TFsspec => save_fsspec_fixed i end.
+
+(* class 2 (open finding fsspec-target-unprotected): the target is an fsspec URL *)
+Definition classify_call (k : tkind) (i : input) : N :=
+  match k with TFsspec => 2 | TLocal => classify i end.
 
 (* ================================================================================================
    REGRESSION ONLY: the order of the tree before the fix (write as you go). Not the model of the code. *)
